@@ -30,6 +30,7 @@ CASES = [
     Case('residual_sign_of_u', SW, "            residual[m] -= self.level.u[m + 1]", "            residual[m] += self.level.u[m + 1]", 'C15.R6', 'get_residual'),
     Case('paradiag_residual_skippable_by_stage', 'pySDC/implementations/controller_classes/controller_ParaDiag_nonMPI.py', "            # compute residuals locally\n            S.levels[0].sweep.compute_residual()\n", "            # compute residuals locally\n            S.levels[0].sweep.compute_residual(stage='IT_FINE')\n", 'C15.R7', 'controller_ParaDiag_nonMPI', note='seed C15c_3'),
     # twins
+    Case('slots_compressed_before_the_mask_is_final', 'pySDC/implementations/controller_classes/controller_ParaDiag_nonMPI.py', "            active = [time[p] < Tend - 10 * np.finfo(float).eps for p in slots]\n            if not all(active) and any(active):", "            active = [time[p] < Tend - 10 * np.finfo(float).eps for p in slots]\n            active_slots = list(itertools.compress(slots, active))\n            if not all(active) and any(active):", 'C15.R9', 'controller_ParaDiag_nonMPI.run', more=[("            active_slots = list(itertools.compress(slots, active))\n\n            # restart active steps", "\n            # restart active steps")], note='seed C15g_1'),
     Case('twin_gamma_inlined', PH, "    gamma = alpha ** (-np.arange(N) / N)\n    return sp.diags(gamma)", "    weights = alpha ** (-np.arange(N) / N)\n    return sp.diags(weights)", benign=True),
     Case('twin_eig_names', SW, "        w, S = np.linalg.eig(A)\n        S_inv = np.linalg.inv(S)", "        w, S = np.linalg.eig(A)\n        Sinv = np.linalg.inv(S)\n        S_inv = Sinv", benign=True),
     Case('twin_apply_matrix_loopvars', PC, "        for i in range(mat.shape[0]):\n            for m in range(M):\n                me[i][m] = res[i][m]", "        for row in range(mat.shape[0]):\n            for node in range(M):\n                me[row][node] = res[row][node]", benign=True),
